@@ -325,6 +325,9 @@ func vfC14(w *vfWorld) {
 			if !login(b) {
 				return false
 			}
+			if rotateKeys && cfg.Provider != "plain" {
+				idp.RotateKey() // the refresh answer is signed with a key the proxy has not seen: its verification needs the key set again
+			}
 			w.Sleep(cfg.CookieRefresh + 30*time.Second)
 			return true
 		}
@@ -413,6 +416,11 @@ func vfC14(w *vfWorld) {
 				}
 				if transient {
 					kd.Reject = nil
+					if endpointClass(calls[k].Endpoint) == "jwks" && strings.HasPrefix(flow, "refresh") && kd.Fault.Kind != "" && kd0.Reject["*"] {
+						// the keys could not be fetched for THIS verification (nobody retries within the request): the refresh answer
+						// stays unverified and nothing of it may be adopted
+						kd.Reject = map[string]bool{"refresh": true, "refresh-profile": true}
+					}
 					kd.Name += "(transient)"
 				}
 				if kd.On != "" && kd.On != cls {
@@ -532,6 +540,11 @@ func vfC14(w *vfWorld) {
 							}
 						}
 					}
+				}
+				if kd.Fault.Kind == "hang" {
+					// whatever still waits on the hanging answer (the key-set fetch is shared between requests) runs into its
+					// deadline before the next iteration starts
+					w.Sleep(11 * time.Minute)
 				}
 				// follow-up request of the same browser (honest IdP again)
 				if flow != "bearer" {
